@@ -36,13 +36,14 @@ func init() { register("C11", "other", checkC11) }
 //     each case of (operand zero / non-zero), (a < b, a = b, a > b), with the
 //     ring form deciding "a - b is zero": Bool, Not, BoolCond, Eq, Leu.
 //
+// Les is decided relative to Lts (the signed comparison kept as a node).
 // NOT decided: Abs, SignedMul, SignedDiv, SignedMod, SignExtend, RshA, Lts,
-// Les, MaskBits, IntNegative (their meaning depends on sign bits and masks that
+// MaskBits, IntNegative (their meaning depends on sign bits and masks that
 // vary with the width), and the meaning of the IR operators themselves (C10).
 func checkC11(c *Ctx) {
 	c.Rule("C11.bitwise", "BitNot, BitAnd, BitOr, BitXor, Ones build a term of Nand nodes, all at the gadget's width, over their operands and the constant zero; its truth table per bit is NOT / AND / OR / XOR / constant one")
 	c.Rule("C11.ring", "Negate, Sub, NewWidthGadget, Mod build a term whose polynomial normal form over Z/2^(8w) (Add, Mul, full-width complement = -x-1, quotient as an atom) is -a / a-b / a / a - q(a,b)*b, and Mod with divisor 0 (quotient all ones) is a")
-	c.Rule("C11.cases", "Bool, Not, BoolCond, Eq, Leu build selections whose conditions, decided under every case of (operand zero / non-zero) resp. (a<b, a=b, a>b), select the documented result")
+	c.Rule("C11.cases", "Bool, Not, BoolCond, Eq, Leu build selections whose conditions, decided under every case of (operand zero / non-zero) resp. (a<b, a=b, a>b), select the documented result; Les likewise under the signed order, relative to Lts (kept as a node, its own meaning not decided)")
 
 	tpkg := ModulePath + "/pkg/expr/exprtools"
 	ep := c.Prog.SSAPkg[ExprPkg]
@@ -59,7 +60,14 @@ func checkC11(c *Ctx) {
 		}
 		ops[int64(v)] = n
 	}
-	x := &gExtract{c: c, ops: ops, tpkg: tpkg}
+	x := &gExtract{c: c, ops: ops, tpkg: tpkg, opaque: map[*ssa.Function]bool{}}
+	if lts := c.Prog.Func(tpkg + ".Lts"); lts != nil {
+		x.opaque[Origin(lts)] = true
+	}
+	x.opaqueSX = map[*ssa.Function]bool{}
+	if sx := c.Prog.Func(tpkg + ".SignExtend"); sx != nil {
+		x.opaqueSX[Origin(sx)] = true
+	}
 	term := func(name string) (*gt, *ssa.Function) {
 		f := c.Prog.Func(tpkg + "." + name)
 		if f == nil || f.Blocks == nil {
@@ -164,6 +172,9 @@ func checkC11(c *Ctx) {
 	lt := gfacts{order: "<", nonzero: map[string]bool{diff.String(): true, diff.scale(-1).String(): true}}
 	eq := gfacts{order: "=", subst: map[string]gpoly{"p1": v("p0")}}
 	gtr := gfacts{order: ">", nonzero: map[string]bool{diff.String(): true, diff.scale(-1).String(): true}}
+	slt := gfacts{sorder: "<", nonzero: lt.nonzero}
+	seq := gfacts{sorder: "=", subst: eq.subst}
+	sgt := gfacts{sorder: ">", nonzero: lt.nonzero}
 	for _, g := range []struct {
 		name  string
 		width string
@@ -174,6 +185,8 @@ func checkC11(c *Ctx) {
 		{"BoolCond", "w", []gcase{{"the condition is zero", zero("p0"), "p2"}, {"the condition is not zero", nonzero("p0"), "p1"}}},
 		{"Eq", "w", []gcase{{"a = b", eq, "p2"}, {"a < b", lt, "p3"}, {"a > b", gtr, "p3"}}},
 		{"Leu", "w", []gcase{{"a = b", eq, "p2"}, {"a < b", lt, "p2"}, {"a > b", gtr, "p3"}}},
+		// relative to Lts (the signed comparison, kept as a node and not itself decided)
+		{"Les", "w", []gcase{{"a = b", seq, "p2"}, {"a < b (signed)", slt, "p2"}, {"a > b (signed)", sgt, "p3"}}},
 	} {
 		t, f := term(g.name)
 		if t == nil {
@@ -195,7 +208,25 @@ func checkC11(c *Ctx) {
 		}
 		c.Oblige("C11.cases", "pkg/expr/exprtools."+g.name, c.Prog.FuncPos(f), bad == "", bad)
 	}
-	c.RequireCount("C11 gadgets decided", n, 14)
+	// ---- SignedMul, relative to SignExtend and Mul: the product, at twice the
+	// width, of the operands each sign-extended from its own top bit to that width
+	c.Rule("C11.smul", "SignedMul builds Mul(sext(a, bit 8*width(a)-1), sext(b, bit 8*width(b)-1)) with both extensions and the product at width 2w (relative to SignExtend, kept as a node, and to Mul)")
+	if t, f := term("SignedMul"); t != nil {
+		n++
+		bad := ""
+		okArg := func(a *gt, p string) bool {
+			return a.kind == "sx" && a.w == "(2*w)" && a.a[0].kind == "var" && a.a[0].name == p &&
+				a.a[1].kind == "kexpr" && a.a[1].name == "(Bits(W("+p+"))-1)"
+		}
+		switch {
+		case t.kind != "bin" || t.name != "Mul" || t.w != "(2*w)":
+			bad = "the term " + t.String() + " is not a product at width 2w"
+		case !(okArg(t.a[0], "p0") && okArg(t.a[1], "p1")) && !(okArg(t.a[0], "p1") && okArg(t.a[1], "p0")):
+			bad = "the factors of " + t.String() + " are not the two operands, each sign-extended from its own top bit to width 2w"
+		}
+		c.Oblige("C11.smul", "pkg/expr/exprtools.SignedMul", c.Prog.FuncPos(f), bad == "", bad)
+	}
+	c.RequireCount("C11 gadgets decided", n, 16)
 }
 
 func ruleOfGadget(name string) string {
@@ -204,6 +235,8 @@ func ruleOfGadget(name string) string {
 		return "C11.bitwise"
 	case "Negate", "Sub", "NewWidthGadget", "Mod":
 		return "C11.ring"
+	case "SignedMul":
+		return "C11.smul"
 	}
 	return "C11.cases"
 }
@@ -243,6 +276,12 @@ func (t *gt) String() string {
 		return fmt.Sprintf("%s(%s, %s)@%s", t.name, t.a[0], t.a[1], t.w)
 	case "less":
 		return fmt.Sprintf("(%s < %s ? %s : %s)@%s", t.a[0], t.a[1], t.a[2], t.a[3], t.w)
+	case "sless":
+		return fmt.Sprintf("(%s <s %s ? %s : %s)@%s", t.a[0], t.a[1], t.a[2], t.a[3], t.w)
+	case "sx":
+		return fmt.Sprintf("sext(%s, bit %s)@%s", t.a[0], t.a[1], t.w)
+	case "kexpr":
+		return t.name
 	}
 	return "?"
 }
@@ -251,6 +290,47 @@ type gExtract struct {
 	c    *Ctx
 	ops  map[int64]string
 	tpkg string
+	// selection gadgets kept as nodes when met inside another gadget
+	opaque   map[*ssa.Function]bool
+	opaqueSX map[*ssa.Function]bool
+}
+
+// scalarOf spells a Go integer computed from widths: constants, + - *, and
+// Width.Bits().
+func (x *gExtract) scalarOf(v ssa.Value, env map[*ssa.Parameter]*gt, depth int) (string, bool) {
+	switch y := v.(type) {
+	case *ssa.Const:
+		if k, ok := ConstInt(y); ok {
+			return fmt.Sprint(k), true
+		}
+	case *ssa.Convert:
+		return x.scalarOf(y.X, env, depth)
+	case *ssa.ChangeType:
+		return x.scalarOf(y.X, env, depth)
+	case *ssa.BinOp:
+		a, ok1 := x.scalarOf(y.X, env, depth)
+		b, ok2 := x.scalarOf(y.Y, env, depth)
+		if ok1 && ok2 && (y.Op == token.ADD || y.Op == token.SUB || y.Op == token.MUL) {
+			if y.Op != token.SUB && a > b {
+				a, b = b, a
+			}
+			return "(" + a + y.Op.String() + b + ")", true
+		}
+	case *ssa.Call:
+		if g := y.Call.StaticCallee(); g != nil && !y.Call.IsInvoke() && FuncNameIs(g, "(pkg/expr.Width).Bits") && len(y.Call.Args) == 1 {
+			if t, err := x.termOf(y.Call.Args[0], env, depth); err == "" && t.kind == "width" {
+				return "Bits(" + t.name + ")", true
+			}
+		}
+	case *ssa.Parameter:
+		if t := env[y]; t != nil && t.kind == "width" {
+			return t.name, true
+		}
+	}
+	if t, err := x.termOf(v, env, depth); err == "" && t.kind == "width" {
+		return t.name, true
+	}
+	return "", false
 }
 
 // result: the term a straight-line function returns under env.
@@ -302,6 +382,13 @@ func (x *gExtract) termOf(v ssa.Value, env map[*ssa.Parameter]*gt, depth int) (*
 		}
 	case *ssa.Convert:
 		return x.termOf(y.X, env, depth)
+	case *ssa.BinOp:
+		// a width computed from widths (2*w)
+		if TypeNameIs(y.Type(), "pkg/expr.Width") {
+			if sc, ok := x.scalarOf(y, env, depth); ok {
+				return &gt{kind: "width", name: sc}, ""
+			}
+		}
 	case *ssa.Call:
 		if y.Call.IsInvoke() {
 			if y.Call.Method.Name() == "Width" {
@@ -367,6 +454,37 @@ func (x *gExtract) termOf(v ssa.Value, env map[*ssa.Parameter]*gt, depth int) (*
 				return nil, e
 			}
 			return &gt{kind: "less", a: as, w: w}, ""
+		case PkgPathOf(g) == x.tpkg && x.opaqueSX[Origin(g)] && len(args) == 3:
+			// sign extension, kept as a node (its own meaning is not decided)
+			v0, e1 := arg(0)
+			bit, e2 := arg(1)
+			w, e3 := width(2)
+			if e := firstErr(e1, e2, e3); e != "" {
+				return nil, e
+			}
+			return &gt{kind: "sx", a: []*gt{v0, bit}, w: w}, ""
+		case (FuncNameIs(Origin(g), "pkg/expr.ConstFromUint") || FuncNameIs(Origin(g), "pkg/expr.ConstFromInt")) && len(args) == 1:
+			sc, ok := x.scalarOf(args[0], env, depth)
+			if !ok {
+				return nil, "a constant is built from a value that cannot be spelled"
+			}
+			return &gt{kind: "kexpr", name: sc}, ""
+		case PkgPathOf(g) == x.tpkg && x.opaque[Origin(g)] && len(args) == 5:
+			// a selection gadget that is not itself decided (the signed comparison): kept
+			// as a node, its own meaning taken as documented
+			var as []*gt
+			for i := 0; i < 4; i++ {
+				t, e := arg(i)
+				if e != "" {
+					return nil, e
+				}
+				as = append(as, t)
+			}
+			w, e := width(4)
+			if e != "" {
+				return nil, e
+			}
+			return &gt{kind: "sless", a: as, w: w}, ""
 		case PkgPathOf(g) == x.tpkg && g.Blocks != nil:
 			env2 := map[*ssa.Parameter]*gt{}
 			for i, p := range g.Params {
@@ -587,6 +705,7 @@ type gfacts struct {
 	subst   map[string]gpoly // variables known to equal something
 	nonzero map[string]bool  // polynomials (spelled) known to be non-zero
 	order   string           // "<", "=", ">" between p0 and p1 (unsigned, at the compare width)
+	sorder  string           // the same for the signed order (cases of a gadget built on the signed comparison)
 }
 
 // selectLeaf decides every selection of the term under the facts and returns
@@ -615,6 +734,33 @@ func (t *gt) selectLeaf(U string, f gfacts) (string, string) {
 			}
 		}
 		return "", "a computed value (" + t.String() + ") is selected"
+	case "sless":
+		// the signed comparison of the two operands themselves, under a case of
+		// their signed order
+		if t.w != U {
+			return "", "a comparison at width " + t.w + " in a gadget comparing at width " + U
+		}
+		pa, e1 := t.a[0].poly(U, nil)
+		pb, e2 := t.a[1].poly(U, nil)
+		if e := firstErr(e1, e2); e != "" {
+			return "", e
+		}
+		one := func(p gpoly, m string) bool { return len(p) == 1 && p[m] != nil && p[m].Cmp(big.NewInt(1)) == 0 }
+		yes := false
+		switch {
+		case f.sorder == "":
+			return "", "a signed comparison in a gadget that is not decided by the signed order of its operands"
+		case one(pa, "p0") && one(pb, "p1"):
+			yes = f.sorder == "<"
+		case one(pa, "p1") && one(pb, "p0"):
+			yes = f.sorder == ">"
+		default:
+			return "", fmt.Sprintf("the signed comparison %s <s %s is not of the two operands themselves", pa, pb)
+		}
+		if yes {
+			return t.a[2].selectLeaf(U, f)
+		}
+		return t.a[3].selectLeaf(U, f)
 	case "less":
 		if t.w != U {
 			return "", "a comparison at width " + t.w + " in a gadget comparing at width " + U
